@@ -87,7 +87,8 @@ func (s *Sym) ev(env *Env, e Expr) TV {
 		}
 		return TV{T: v, S: "Int"}
 	case EStr:
-		return TV{T: s.strConst(x.V), S: "Str"}
+		v := x.V
+		return TV{T: s.strConst(v), S: "Str", Lit: &v}
 	case EBool:
 		return TV{T: strconv.FormatBool(x.V), S: "Bool"}
 	case ENil:
@@ -217,7 +218,8 @@ func (s *Sym) pkgMember(env *Env, pkg *types.Package, name string) (TV, bool) {
 				return TV{T: intLit(o.Val().ExactString()), S: "Int", GT: o.Type()}, true
 			}
 		case "Str":
-			return TV{T: s.strConst(constant.StringVal(o.Val())), S: "Str", GT: o.Type()}, true
+			v := constant.StringVal(o.Val())
+			return TV{T: s.strConst(v), S: "Str", GT: o.Type(), Lit: &v}, true
 		case "Bool":
 			return TV{T: strconv.FormatBool(constant.BoolVal(o.Val())), S: "Bool"}, true
 		}
@@ -306,7 +308,9 @@ func (s *Sym) fieldOf(env *Env, b TV, name string) TV {
 		}
 		so := SortOf(ft)
 		m := s.getMap(env.st, mn, mapSortOfElem(so))
-		return TV{T: fmt.Sprintf("(select %s %s)", m, b.T), S: so, GT: ft}
+		r := TV{T: fmt.Sprintf("(select %s %s)", m, b.T), S: so, GT: ft}
+		s.heapWellFormed(env, r)
+		return r
 	}
 	// promoted field through an embedded struct
 	for i := 0; i < st.NumFields(); i++ {
@@ -327,6 +331,44 @@ func (s *Sym) fieldOf(env *Env, b TV, name string) TV {
 	return TV{}
 }
 
+// heapWellFormed: references read from the heap are allocated (below the watermark
+// of the state they are read in). Emitted as a ground fact for closed terms.
+func (s *Sym) heapWellFormed(env *Env, v TV) {
+	if strings.Contains(v.T, "|qv:") || strings.Contains(v.T, "|sp:") || strings.Contains(v.T, "|hp:") {
+		return
+	}
+	if _, rec := recState[env.st]; rec {
+		return
+	}
+	var t string
+	switch {
+	case v.S == "Int" && isRefLike(v.GT):
+		t = v.T
+	case v.S == "Int" && v.GT != nil && isStructPtrOrStruct(v.GT):
+		t = v.T
+	case v.S == "Slice":
+		t = "(sl-arr " + v.T + ")"
+	case v.S == "Iface":
+		t = "(ival " + v.T + ")"
+	default:
+		return
+	}
+	key := "wf:" + t + "@" + s.top(env.st)
+	if s.declared[key] {
+		return
+	}
+	s.declared[key] = true
+	s.emit(fmt.Sprintf("(assert (and (>= %s 0) (<= %s %s)))", t, t, s.top(env.st)))
+}
+
+func isStructPtrOrStruct(t types.Type) bool {
+	if p, ok := t.Underlying().(*types.Pointer); ok {
+		_, ok2 := p.Elem().Underlying().(*types.Struct)
+		return ok2
+	}
+	return false
+}
+
 func (s *Sym) evIndex(env *Env, b, i TV) TV {
 	switch b.S {
 	case "Slice":
@@ -340,7 +382,9 @@ func (s *Sym) evIndex(env *Env, b, i TV) TV {
 		}
 		name := "E:" + sortTag(es)
 		m := s.getMap(env.st, name, "(Array Int "+mapSortOfElem(es)+")")
-		return TV{T: fmt.Sprintf("(select (select %s (sl-arr %s)) %s)", m, b.T, i.T), S: es, GT: et}
+		r := TV{T: fmt.Sprintf("(select (select %s (sl-arr %s)) %s)", m, b.T, i.T), S: es, GT: et}
+		s.heapWellFormed(env, r)
+		return r
 	case "Str":
 		return TV{T: fmt.Sprintf("(sat %s %s)", b.T, i.T), S: "Int"}
 	case "Bytes":
@@ -437,6 +481,10 @@ func (s *Sym) evBin(env *Env, x EBin) TV {
 		return TV{T: fmt.Sprintf("(%s %s %s)", x.Op, a.T, b.T), S: "Bool"}
 	case "+", "-", "*":
 		if a.S == "Str" && x.Op == "+" {
+			if a.Lit != nil && b.Lit != nil {
+				v := *a.Lit + *b.Lit
+				return TV{T: s.strConst(v), S: "Str", Lit: &v}
+			}
 			return TV{T: fmt.Sprintf("(sconcat %s %s)", a.T, b.T), S: "Str"}
 		}
 		return TV{T: fmt.Sprintf("(%s %s %s)", x.Op, a.T, b.T), S: a.S}
@@ -572,6 +620,12 @@ func (s *Sym) evCall(env *Env, x ECall) TV {
 	case "mathmod":
 		a := argv()
 		return TV{T: fmt.Sprintf("(mod %s %s)", a[0].T, a[1].T), S: "Int"}
+	case "isfresh": // reference allocated after the old state
+		a := argv()
+		if env.old == nil {
+			bad("isfresh needs an old state")
+		}
+		return TV{T: fmt.Sprintf("(and (> %s %s) (<= %s %s))", a[0].T, s.top(env.old), a[0].T, s.top(env.st)), S: "Bool"}
 	case "ifacePtr": // payload reference of an interface value
 		a := argv()
 		return TV{T: "(ival " + a[0].T + ")", S: "Int"}
